@@ -82,6 +82,14 @@ func zzScripted(w *zzWorld, honest bool, maxDeliver int) zzDeliver {
 			} else {
 				slot = verifrt.NondetRange("deliver.slot", 0, len(w.pool)-1)
 				c = w.pool[slot].c
+				if verifrt.NondetBool("deliver.alias") {
+					// the same multihash under the other codec: a different CID for the same bytes
+					codec := uint64(cid.Raw)
+					if c.Prefix().Codec == cid.Raw {
+						codec = cid.DagProtobuf
+					}
+					c = cid.NewCidV1(codec, c.Hash())
+				}
 				x = verifrt.NondetU8("deliver.byte")
 			}
 			b, err := blocks.NewBlockWithCid([]byte{byte(slot), x}, c)
@@ -95,7 +103,7 @@ func zzScripted(w *zzWorld, honest bool, maxDeliver int) zzDeliver {
 }
 
 func zzC05Service(w *zzWorld, honest bool, maxDeliver int) (BlockService, BlockGetter, context.Context) {
-	bs := &zzBS{w: w}
+	bs := &zzBS{w: w, failPut: verifrt.NondetBool("putFails")}
 	f := zzFetch{w: w, who: "ex", deliver: zzScripted(w, honest, maxDeliver)}
 	var ex exchange.Interface = &zzEx{zzFetch: f}
 	if verifrt.NondetBool("sessionExchange") {
@@ -163,9 +171,9 @@ func zzC05GetBlocks(honest bool) {
 	ctx, cancel := context.WithCancel(ctx0)
 	defer cancel()
 
-	// request: slots 0..n-1, optionally with a duplicate of slot 0 at the end or the rejected CID in front
+	// request: slots 0..n-1, optionally with a duplicate of slot 0 at the end or the rejected CID in front / at the end
 	var ks []cid.Cid
-	extra := verifrt.NondetRange("extra", 0, 2)
+	extra := verifrt.NondetRange("extra", 0, 3)
 	if extra == 2 {
 		ks = append(ks, w.pool[n+1].c)
 	}
@@ -174,6 +182,9 @@ func zzC05GetBlocks(honest bool) {
 	}
 	if extra == 1 {
 		ks = append(ks, w.pool[0].c)
+	}
+	if extra == 3 {
+		ks = append(ks, w.pool[n+1].c) // the rejected CID in the last position
 	}
 	wasLocal := make([]bool, len(w.pool))
 	for i, s := range w.pool {
@@ -192,6 +203,13 @@ func zzC05GetBlocks(honest bool) {
 		i := w.find(b.Cid())
 		requested := i >= 0 && i < n
 		verifrt.Assert("C05.getblocks-emits-only-requested", requested)
+		exact := false
+		for _, k := range ks {
+			if k.Equals(b.Cid()) {
+				exact = true
+			}
+		}
+		verifrt.Assert("C05.getblocks-emitted-cid-was-requested", exact)
 		verifrt.Assert("C05.getblocks-bytes-match-cid", zzGenuine(w, b))
 		if i >= 0 {
 			got[i]++
